@@ -36,6 +36,9 @@ def shapes():
   mk('ground_of_aggregate_consumer', [R('P', x, body=(Lit('B', x),)), R('Q', named={'n': Aggr('Count', x)}, body=(Lit('P', x),), distinct=True), R('T', y, body=(Lit('Q', n=y),))], ['P', 'Q'], ['P', 'Q', 'T'])
   mk('ordered_limited', [R('P', x, body=(Lit('B', x),), distinct=True, order_by=['col0 desc'], limit=1), R('T', x, body=(Lit('P', x),))], ['P'], ['P', 'T'])
   mk('string_values', [R('P', Bin('++', lang.S('v'), lang.Call('ToString', x)), body=(Lit('B', x),)), R('T', x, body=(Lit('P', x),))], ['P'], ['P', 'T'])
+  mk('shared_aggregate_under_ground', [R('W', x, named={'c': Aggr('Sum', N(1))}, body=(Lit('B', x),), distinct=True), R('G', x, body=(Lit('W', x, c=y), Cmp('>', y, N(0)))), R('H', x, body=(Lit('G', x),)),
+                                        R('T', x, y, body=(Lit('H', x), Lit('W', x, c=y))), R('U', x, y, body=(Lit('W', x, c=y), Lit('H', x)))], ['G'], ['G', 'H', 'T', 'U', 'W'])
+  mk('reader_sorts_first', [R('Bz', x, body=(Lit('B', x),)), R('A2', Bin('+', x, N(1)), body=(Lit('Bz', x),)), R('T', x, y, body=(Lit('Bz', x), Lit('A2', y))), R('U', y, x, body=(Lit('A2', y), Lit('Bz', x)))], ['Bz', 'A2'], ['Bz', 'A2', 'T', 'U'])
   mk('through_injectible', [R('P', x, body=(Lit('B', x),)), R('J', x, y, body=(Lit('P', x), Eq(y, Bin('+', x, N(1))))), R('T', y, body=(Lit('J', x, y),))], ['P'], ['P', 'T'])
   return S
 
@@ -112,7 +115,20 @@ class Machine:
   def apply(self, version, op):
     """execute one operation on the real file; -> (new version, output or None)"""
     if op == 'switch': return ('B' if version == 'A' else 'A'), None
+    via_workflow = op.startswith('wf:')
+    op = op[3:] if via_workflow else op
     out, text = self.script(version, op)
+    if via_workflow and out[0] == 'script':
+      # the workflow path of tools/run_in_terminal.Run: ExecuteLogicaProgram with the real SqlRunner on a fresh connection
+      rt = impl.M('tools.run_in_terminal'); cl = impl.M('common.concertina_lib')
+      import contextlib as _c, io as _io
+      try:
+        with _c.redirect_stdout(_io.StringIO()):
+          res = cl.ExecuteLogicaProgram([out[5]], rt.SqlRunner('sqlite'), 'sqlite', display_mode='silent')
+        hdr, rows = res[op]
+        return version, ('rows', list(hdr), sorted([[sval(v) for v in r] for r in rows]), out[3])
+      except Exception as e:
+        return version, ('sql-error', type(e).__name__, str(e)[:200])
     if out[0] != 'script': return version, ('compile-error', out[1], out[2][:200])
     sl = impl.M('common.sqlite3_logica')
     _, preamble, defines, main, _, _ = out
@@ -127,6 +143,7 @@ class Machine:
 def model_apply(m, mstate, version, op):
   """reference model: -> (new model state, new version, expected output)"""
   if op == 'switch': return mstate, ('B' if version == 'A' else 'A'), None
+  op = op[3:] if op.startswith('wf:') else op
   cols, rows, ev = model_rows(m.shape, version, op)
   new = dict(mstate)
   for g in m.shape['grounds']:
@@ -145,7 +162,7 @@ def explore_machine(shape_name, init, depth):
   viol = []; stats = dict(transitions=0, comparisons=0, replays=0); samples = []
   try:
     m = Machine(shape_name, init, workdir)
-    ops = list(m.shape['preds']) + ['switch']
+    ops = list(m.shape['preds']) + ['wf:' + p for p in m.shape['preds']] + ['switch']
     def build(hist):
       """fresh file, replay history on the real implementation and on the model"""
       m.reset(); stats['replays'] += 1
@@ -173,6 +190,7 @@ def explore_machine(shape_name, init, depth):
         version, d, mstate, last = build(nxt)
         stats['transitions'] += 1
         _, before, out, mout = last
+        pname = op[3:] if op.startswith('wf:') else op
         if op != 'switch':
           stats['comparisons'] += 2
           if out[0] != 'rows':
@@ -188,12 +206,12 @@ def explore_machine(shape_name, init, depth):
               bad('wrong-output', 'run(%s) printed %s %s, model %s %s' % (op, hdr, rows[:6], ecols, erows[:6]), nxt)
             # dependants read the table rather than recomputing
             for g in m.shape['grounds']:
-              ev = model_rows(m.shape, 'A', op)[2]
-              if g != op and g in ev.deps(op) and table_name(m.shape, g) not in main:
+              ev = model_rows(m.shape, 'A', pname)[2]
+              if g != pname and g in ev.deps(pname) and table_name(m.shape, g) not in main:
                 bad('dependant-does-not-read-table', 'main SQL of %s does not mention table %s' % (op, table_name(m.shape, g)), nxt)
           if norm_dump(d) != norm_dump(mstate):
             diff = [k for k in set(d) | set(mstate) if norm_dump(d).get(k) != norm_dump(mstate).get(k)]
-            kind = 'writes-requested-grounded-predicate' if op in m.shape['grounds'] and table_name(m.shape, op) in diff else 'wrong-table-contents'
+            kind = 'writes-requested-grounded-predicate' if pname in m.shape['grounds'] and table_name(m.shape, pname) in diff else 'wrong-table-contents'
             bad(kind, 'after run(%s) tables %s differ: file %s, model %s' % (op, diff, {k: d.get(k) for k in diff}, {k: mstate.get(k) for k in diff}), nxt)
           # idempotence: the same run again changes nothing and prints the same
           if len(nxt) >= 2 and nxt[-1] == nxt[-2]:
